@@ -307,7 +307,34 @@ def StatusKey.code? : StatusKey → Option Nat
 
 def preferredCodes : List Nat := [200, 201, 202, 204]
 
-/-- response_strategy.py `_get_primary_response`: nested `for code … for response …` loops. -/
+/-- `IRResponse.status_code` as the python `str` it is. -/
+def StatusKey.str : StatusKey → Str
+  | .num n => natStr n
+  | .default => "default".toList
+  | .other s => s
+
+/-- python `a < b` on `str`: lexicographic by code point. -/
+def strLt : Str → Str → Bool
+  | [], [] => false
+  | [], _ :: _ => true
+  | _ :: _, [] => false
+  | a :: as, b :: bs => if a.toNat < b.toNat then true else if b.toNat < a.toNat then false else strLt as bs
+
+/-- python `min(rs, key=lambda r: r.status_code)`: the FIRST element whose key is minimal. -/
+def minByKey : List Resp → Option Resp
+  | [] => none
+  | r :: rs =>
+    match minByKey rs with
+    | none => some r
+    | some m => if strLt m.key.str r.key.str then some m else some r
+
+/-- `for r in sorted(rs, key=lambda r: r.status_code): if p(r): return r` — `sorted` is stable, so this is the
+    first minimal element among those satisfying `p`. -/
+def firstSortedWhere (p : Resp → Bool) (rs : List Resp) : Option Resp := minByKey (rs.filter p)
+
+/-- response_strategy.py `_get_primary_response`: nested `for code … for response …` loops, then the lowest other
+    2xx key, then `default`, then the lowest key (repaired F57: the last two steps no longer depend on the order of
+    the `responses` mapping). -/
 def primaryA.byCode (rs : List Resp) : List Nat → Option Resp
   | [] => none
   | c :: cs =>
@@ -320,12 +347,12 @@ def primaryA (rs : List Resp) : Option Resp :=
   match primaryA.byCode rs preferredCodes with
   | some r => some r
   | none =>
-    match rs.find? (fun r => r.key.starts2) with
+    match firstSortedWhere (fun r => r.key.starts2) rs with
     | some r => some r
     | none =>
       match rs.find? (fun r => r.key.isDefault) with
       | some r => some r
-      | none => rs.head?
+      | none => minByKey rs
 
 /-- endpoint_utils.py `_get_primary_response`: `next((r for r in … if …), None)` per code, an
     `IRResponse` instance is always truthy. -/
@@ -340,22 +367,18 @@ def primaryB.loopCodes (rs : List Resp) : List Nat → Option Resp
     | some r => some r
     | none => primaryB.loopCodes rs cs
 
-def primaryB.loop2 : List Resp → Option Resp
-  | [] => none
-  | r :: rs => if r.key.starts2 then some r else primaryB.loop2 rs
-
 def primaryB (rs : List Resp) : Option Resp :=
   match primaryB.loopCodes rs preferredCodes with
   | some r => some r
   | none =>
-    match primaryB.loop2 rs with
+    match firstSortedWhere (fun r => r.key.starts2) rs with
     | some r => some r
     | none =>
       match nextWhere (fun r => r.key.isDefault) rs with
       | some r => some r
       | none =>
         match rs with
-        | r :: _ => some r
+        | _ :: _ => minByKey rs
         | [] => none
 
 /-- The python type a schema shape resolves to (`UnifiedTypeService.resolve_schema_type`). -/
